@@ -50,6 +50,16 @@ the Ok side (H.ok_needed); paths built by to_path_buf + PathBuf::push are joins,
 is not (H.PathPushes).  New necessary conditions found on the way: libcnb_runtime never returns to `main` (status 0), also not
 through functions that cannot come back (H.can_return), and every way out on the Err side of the phase result lies behind
 on_error (runtime/on_error/always).
+Spelling independence (robustness round 5): the descriptor read is a role (H.descriptor_reader: the private function on the
+chain of the READ of buildpack.toml from the gate and both phases — it may hand back (directory, descriptor); the context field
+is then the ?-propagated parse of <CNB_BUILDPACK_DIR>/buildpack.toml itself); the context handed to detect / build is read in
+normal form (a private function may assemble and return it), and the call of Buildpack::detect / ::build is an effect of the
+phase: it may sit in a private function with one caller, the mandatory reads being MUST effects level by level and its
+arguments read as what the chain passes; `body(..).inspect_err(f)` / `.map_err(f)` as the phase's return value makes the
+outcomes of `body` the outcomes of the phase (H.outcomes_body); a handler closure handed to a private function that maps the
+phase result to the code and runs the closure itself is bound at that function's one call of it (H.closure_invocation), the
+codes it returns being rows behind that call.  New necessary condition: the Some-decision of "written iff provided" is itself
+reached on every way to success (a store.toml write nested under `if let Some(launch)` is a breach).
 Not decided: that exit terminates, byte-exact file contents, behaviour of the user's detect/build.
 """
 from .lib.discard import result_fates, verdict, diverges
@@ -104,7 +114,7 @@ def must_pass(fn, frm, to, via):
     return to not in fn.reachable(frm, stop=[via]) or via == frm
 
 
-def provided_write(E, prog, sl, host, site_bb, e, is_subject):
+def provided_write(E, prog, sl, host, site_bb, e, is_subject, osites=()):
     """write effect e of `host` happens iff an optional part of the result was provided.  (guarded, always, first, top):
     guarded — a Some-decision on the part (is_subject) lies around the write at some level of its call chain (in the
     phase, or in the private helper the write was moved to, its parameter read as what the phase passes), or the write
@@ -118,7 +128,7 @@ def provided_write(E, prog, sl, host, site_bb, e, is_subject):
     some = [cd for cd, views, subj in guards_of(E, e) if is_some(cd) and subj is not None and is_subject(subj)]
     some += [cd for cd in conditions(host, top.bb, sl) if is_some(cd) and cd.subject is not None and is_subject(cd.subject)]
     implied = any(x[0] == 'unwrap' and is_subject(x[1]) for x in e.implied)
-    top_must = any(x.bb == top.bb for x, _ in E.must_calls(host, [site_bb]))
+    top_must = any(x.bb == top.bb for x, _ in E.must_calls(host, [site_bb])) or top.bb == site_bb
     guard_fn = None
     if some:
         cd = some[0]
@@ -127,6 +137,10 @@ def provided_write(E, prog, sl, host, site_bb, e, is_subject):
         ends = [site_bb] if cd.fn.path == host.path else cd.fn.return_blocks()
         always = lvl is not None and all(must_pass(cd.fn, cd.target, b, lvl.bb) for b in ends)
         always = always and (cd.fn.path == host.path or top_must)
+        # ... and the decision itself is taken on every way to success (a write nested under the presence of ANOTHER part
+        # is skipped when that part is missing, although this one was provided)
+        succ = ends if cd.fn.path == host.path else ([s.bb for s in osites if s.fn.path == cd.fn.path] or [st.bb for st in E.sites(cd.fn)])
+        always = always and all(must_pass(cd.fn, 0, b, cd.sw_bb) for b in succ)
     elif implied:
         # the combinator call is on every path to success, and inside the closure it runs the write is
         cl = next((c for c in levels if c.fn.kind == 'Closure'), None)
@@ -158,6 +172,10 @@ def run(ctx, rep):
     rt, rd, rb = prog.fn(RT), prog.fn(RD), prog.fn(RB)
     for f in (rt, rd, rb):
         rep.analysed(f)
+    # the descriptor read is a role, not a name: the private function through which libcnb_runtime and both phases read
+    # <..>/buildpack.toml (it may also hand back the directory it found the file in)
+    global READ_DESC
+    READ_DESC = H.descriptor_reader(prog, E, E_rt, rt, rd, rb, 'libcnb::runtime::read_buildpack_descriptor')
     w = lambda f: '%s:%d' % (f.file, f.line)
     supported = sl.const_init('libcnb::LIBCNB_SUPPORTED_BUILDPACK_API')
     # Every exit the runtime can perform outside the phases either carries a constant error code or forwards the phase
@@ -383,6 +401,10 @@ def run(ctx, rep):
                       'BuildpackApi has a hand-written equality: "api == supported" no longer means the same version')
     # ... and the file it is read from is <CNB_BUILDPACK_DIR>/buildpack.toml, nothing else (the descriptor read is shared by
     # the gate and the phases: one file, found through the mandatory variable)
+    def is_bpdir(v):
+        while v[0] == 'call' and len(v[2]) == 1 and v[1].endswith(H.CONVERTERS):      # String -> PathBuf
+            v = strip(v[2][0])
+        return v[0] == 'call' and v[1] == 'std::env::var' and bool(v[2]) and strip(v[2][0]) == ('const', 'CNB_BUILDPACK_DIR')
     rdesc = prog.fns.get(READ_DESC)
     if rdesc is None:
         rep.unproven('R1', 'gate/descriptor-path', w(rt), '%s not found' % READ_DESC)
@@ -396,10 +418,6 @@ def run(ctx, rep):
         reads = []
         for ent, EE in ((rt, E_rt), (rd, E), (rb, E)):
             reads.extend((ent, e) for e in EE.expand(ent, 'may') if e.kind in FS_READS and in_read(e))
-        def is_bpdir(v):
-            while v[0] == 'call' and len(v[2]) == 1 and v[1].endswith(H.CONVERTERS):      # String -> PathBuf
-                v = strip(v[2][0])
-            return v[0] == 'call' and v[1] == 'std::env::var' and bool(v[2]) and strip(v[2][0]) == ('const', 'CNB_BUILDPACK_DIR')
         shape = len(own) == 1 and own[0].kind == 'READ' and bool(reads) and all(e.kind == 'READ' for _, e in reads) \
             and {ent.path for ent, _ in reads} == {rt.path, rd.path, rb.path}
         pp = H.path_pushes(prog, sl, [rt, rd, rb, rdesc])       # `p = dir.to_path_buf(); p.push(name)` is `dir.join(name)`
@@ -472,12 +490,26 @@ def run(ctx, rep):
         of = c.fn
         levels = list(e.chain) + [c]
         e_args, e_implied = H.err_closure_payload(E_rt, e)
+        # the handler call may sit in a closure handed to a private function that maps the phase result to the exit code and
+        # runs the closure itself (`exit(code_of(result, |e| buildpack.on_error(e)))`): the closure's parameter is what that
+        # function passes at its one call of it, the decisions around that call are decisions around on_error, and the
+        # codes the function returns are rows placed in it
+        inv = H.closure_invocation(E_rt, e)
+        inv_conds = []
+        if inv is not None:
+            g_inv, c_inv, m_inv, bind = inv
+            rep.analysed(g_inv)
+            from .lib.value import subst as _vs
+            e_args = tuple(_vs(a, bind, sl) for a in e_args)
+            levels = list(e.chain) + [c_inv, c]
+            inv_conds = [H.SubstCond(cd, m_inv, sl) for cd in conditions(g_inv, c_inv.bb, sl)]
         ev = strip(e_args[1]) if len(e_args) > 1 else ('unknown',)
         ok = all(a[0] == 'unwrap_err' and is_phase_result(a[1]) for a in alts(ev)) and not any(l.fn.in_loop(l.bb) for l in levels)
         # "only on Err": a decision on the phase result around the call (at any level of the chain), or the call sits in
         # the closure a Result combinator runs with the Err payload of the phase result
         implied_err = any(x[0] == 'unwrap_err' and is_phase_result(x[1]) for x in e_implied)
-        okc = any(err_phase(cd) or (cd.kind == 'variant' and cd.outcome == frozenset({'Err'}) and mentions_phase(subj)) for cd, _, subj in guards_of(E_rt, e)) or implied_err
+        okc = any(err_phase(cd) or (cd.kind == 'variant' and cd.outcome == frozenset({'Err'}) and mentions_phase(subj)) for cd, _, subj in guards_of(E_rt, e)) or implied_err \
+            or any(err_phase(cd) for cd in inv_conds)
         # after on_error the process exits with an error code: every way the process ends on the Err side of the phase result
         # carries a constant error code and lies behind on_error.  The place of a row in on_error's function `of` is where
         # its code was chosen there (the exit / the `return CODE`), or the call in `of` the exit is reached through.
@@ -492,7 +524,16 @@ def run(ctx, rep):
         on_err = [r for r in rows if any(err_phase(cd) for cd in r.conds)]
         direct = [r for r in on_err if r.via is None and anchor(r) is not None and anchor(r) in reach]
         handled = [r for r in on_err if r.via is not None and any(l.fn.path == r.via.path for l in levels)]
-        err_rows = direct + handled
+        # rows chosen inside the function that runs the handler closure: behind its call of the closure on every way from
+        # the Err arm, the closure calling on_error on every way through it
+        placed = []
+        if inv is not None and of.kind == 'Closure' and any(m.call is c for m in E_rt.expand(of, 'must')):
+            arm = [cd.target for cd in inv_conds if err_phase(cd) and cd.fn.path == g_inv.path]
+            for r in on_err:
+                if r.via is None and r.site[0].path == g_inv.path and arm and r.site[1] != c_inv.bb and r.site[1] in g_inv.reachable(c_inv.bb) \
+                        and must_pass(g_inv, arm[-1], r.site[1], c_inv.bb) and not any(r is x for x in direct):
+                    placed.append(r)
+        err_rows = direct + handled + placed
         bypass = [r for r in on_err if not any(r is x for x in err_rows)]
         good_after = bool(err_rows) and all(r.kind == 'const' and bad_code(r.value) for r in err_rows)
         conds = conditions(of, c.bb, sl)
@@ -501,6 +542,8 @@ def run(ctx, rep):
             err_arm = [0]        # the closure body *is* the Err arm
         if not err_arm and okc and not any(cd.fn.path == of.path for cd, _, _ in guards_of(E_rt, e) if err_phase(cd)):
             err_arm = [0]        # the Err decision was taken by a caller: the whole function is the Err arm
+        if not err_arm and any(err_phase(cd) for cd in inv_conds) and of.kind == 'Closure':
+            err_arm = [0]        # the function the closure was handed to runs it on its Err arm
         not_bypassed = bool(err_rows) and (not direct or (bool(err_arm) and all(anchor(r) == c.bb or must_pass(of, err_arm[-1], anchor(r), c.bb) for r in direct)))
         for r in handled:
             # the handler closure returns the code: on_error is among the effects on every way to each of its returns
@@ -526,18 +569,32 @@ def run(ctx, rep):
     rep.floor('R5', 'exit_code_consts', n)
     # ---- R6 --------------------------------------------------------------------------------------------
     callers = prog.callers()
+    # the calls of Buildpack::detect / ::build are effects of the phases: the call may sit in the phase function or in a
+    # private function the phase hands its inputs to; it is judged with the parameters read as what the chain passes
+    BP = 'libcnb::buildpack::Buildpack::'
+    E_bp = Effects(prog, sl, vocab={BP + 'detect': ('BPCALL', None), BP + 'build': ('BPCALL', None)})
     for m, host in (('detect', rd), ('build', rb)):
-        decl = 'libcnb::buildpack::Buildpack::' + m
+        decl = BP + m
         sites = [c for c in callers.get(decl, []) if c.decl == decl and c.fn.crate == 'libcnb']
-        ok = len(sites) == 1 and sites[0].fn.path == host.path and not host.in_loop(sites[0].bb)
+        bpe = [e for e in E_bp.expand(host, 'may') if e.kind == 'BPCALL' and e.call is not None and e.call.decl == decl]
+        lv7 = [(getattr(l, 'call', l), getattr(l, 'mapping', None)) for l in bpe[0].chain] + [(bpe[0].call, bpe[0].mapping)] if bpe else []
+        ok = len(sites) == 1 and len(bpe) == 1 and bpe[0].call is sites[0] and not any(l.fn.in_loop(l.bb) for l, _ in lv7) \
+            and all(l.fn.kind != 'Closure' and (l.fn.path == host.path or (l.fn.vis != 'pub' and len(callers.get(l.fn.path, [])) == 1)) for l, _ in lv7)
         rep.check(ok, 'R6', 'once/' + m, sites[0].where() if sites else w(host), 'Buildpack::%s: one call site in %s, not in a loop' % (m, host.path.split('::')[-1]),
                   'Buildpack::%s is called from %s' % (m, [s.fn.path for s in sites]))
         if not ok:
             continue
         c = sites[0]
+        for l, _ in lv7:
+            rep.analysed(l.fn)
+        clean = lambda mp: {k: x for k, x in (mp or {}).items() if k != '__repl__'}
         # ---- R7 ----------------------------------------------------------------------------------------
         # (a loop over a literal table of (variable, error) rows zipped with the slots it fills is read row by row)
-        must = H.unroll_zip(E, prog, E.expand(host, 'must', site_bbs=[c.bb]))
+        # what has happened on every way to the call: at each level of the chain, the effects on every path to the next call
+        must7 = []
+        for l, mp in lv7:
+            must7.extend(E.expand(l.fn, 'must', site_bbs=[l.bb], mapping=clean(mp) or None))
+        must = H.unroll_zip(E, prog, must7)
         envs = {}
         for e in must:
             if e.kind == 'ENV_READ' and e.path is not None and e.path[0] == 'const':
@@ -550,11 +607,19 @@ def run(ctx, rep):
                 ok2 = ok2 and v == 'ok'
             rep.check(ok2, 'R7', '%s/%s' % (m, name), es[0].where() if es else w(host), '%s read and its absence propagated before %s' % (name, m),
                       '%s is not read (or its error is dropped) on every path before Buildpack::%s' % (name, m))
-        ctxv = strip(sl.operand(host, c.args[1]))
-        # normal form: private helpers between the context literal and the reads are looked through
-        KEEP7 = ('libcnb::runtime::read_buildpack_descriptor', 'libcnb_common::toml_file::read_toml_file')
+        ctx0 = sl.operand(c.fn, c.args[1])
+        if clean(bpe[0].mapping):
+            ctx0 = E.subst(ctx0, clean(bpe[0].mapping))
+        ctxv = strip(ctx0)
+        # normal form: private helpers between the context literal and the reads are looked through — also a helper that
+        # assembles the whole context and returns it (`assemble_context(&args, ..)?`)
+        KEEP7 = (READ_DESC, 'libcnb_common::toml_file::read_toml_file')
+        if ctxv[0] != 'agg':
+            ctxv = strip(sl.inline_deep(ctx0, keep=KEEP7))
+            while ctxv[0] == 'agg' and ctxv[1] == 'std::result::Result' and ctxv[2] == 'Ok' and len(ctxv[3]) == 1:
+                ctxv = strip(ctxv[3][0][1])
         fields = {k: sl.inline_deep(v, keep=KEEP7) for k, v in ctxv[3]} if ctxv[0] == 'agg' else {}
-        need = {'buildpack_descriptor': 'libcnb::runtime::read_buildpack_descriptor', 'platform': 'libcnb::platform::Platform::from_path'}
+        need = {'buildpack_descriptor': READ_DESC, 'platform': 'libcnb::platform::Platform::from_path'}
         if m == 'build':
             need['buildpack_plan'] = 'libcnb_common::toml_file::read_toml_file'
         for fld, callee in need.items():
@@ -562,13 +627,25 @@ def run(ctx, rep):
             while fv[0] == 'call' and fv[1] in ('std::result::Result::<T, E>::map_err', 'std::result::Result::<T, E>::inspect_err') and fv[2]:
                 fv = strip(fv[2][0])
             ok3 = fv[0] == 'call' and fv[1] == callee
-            rep.check(ok3 and fields.get(fld, ('x',))[0] == 'unwrap', 'R7', '%s/input/%s' % (m, fld), c.where(), '%s <- %s(..)? (failure propagated)' % (fld, callee.split('::')[-1]),
+            via_full = False
+            if not ok3 and fld == 'buildpack_descriptor':
+                # the descriptor read hands back more than the descriptor (directory + descriptor): the field is the
+                # ?-propagated parse of <CNB_BUILDPACK_DIR>/buildpack.toml itself
+                full = sl.inline_deep(fields.get(fld, ('unknown',)), keep=KEEP7[1:])
+                f2 = strip(full)
+                while f2[0] == 'call' and f2[1] in ('std::result::Result::<T, E>::map_err', 'std::result::Result::<T, E>::inspect_err') and f2[2]:
+                    f2 = strip(f2[2][0])
+                if full[0] == 'unwrap' and f2[0] == 'call' and f2[1] == KEEP7[1] and f2[2] and \
+                        any(z[0] == 'unwrap' and z[1][0] == 'call' and z[1][1] == READ_DESC for z in walk(fields[fld])) and \
+                        L.comps(H.norm(prog, sl, f2[2][0]), is_bpdir) == ('buildpack.toml',):
+                    ok3 = via_full = True
+            rep.check(ok3 and (via_full or fields.get(fld, ('x',))[0] == 'unwrap'), 'R7', '%s/input/%s' % (m, fld), c.where(), '%s <- %s(..)? (failure propagated)' % (fld, callee.split('::')[-1]),
                       'context field %s is not the ?-propagated result of %s: %s' % (fld, callee, vstr(fields.get(fld, ('unknown',)))[:100]))
             src = {'platform': 'platform_dir_path', 'buildpack_plan': 'buildpack_plan_path'}.get(fld)
             if ok3 and src:
                 # ... read from the argument the lifecycle passes for it
                 a = strip(fv[2][0]) if fv[2] else ('unknown',)
-                rep.check(a[0] == 'field' and a[2] == src and a[1][0] == 'param' and a[1][2] == 1, 'R7', '%s/input/%s/source' % (m, fld), c.where(),
+                rep.check(a[0] == 'field' and a[2] == src and a[1][0] == 'param' and a[1][2] == 1 and a[1][1] == host.path, 'R7', '%s/input/%s/source' % (m, fld), c.where(),
                           '%s is read from args.%s' % (fld, src), '%s is read from %s, not from args.%s' % (fld, vstr(a)[:80], src))
     # ---- R4 detect table ---------------------------------------------------------------------------------
     # One row per (success outcome, variant of the detect result).  The variant is decided by a `match` in the phase
@@ -576,7 +653,7 @@ def run(ctx, rep):
     # result.into_code_and_plan()`): such a helper's return table is read row by row as if it had been matched at the call
     # site (H.decided_by), values and guards rewritten with the row's value, effects under a refuted guard dropped.
     ENUM = 'libcnb::detect::InnerDetectResult'
-    outs = outcomes(E, rd)
+    outs = H.outcomes_body(E, rd)
     cases = []        # (arm, success value, MUTATING effects after the decision, MUTATING effects before it, outcome, view)
     for o in outs:
         mut = [e for e in o.may if e.kind in MUTATING]
@@ -618,7 +695,10 @@ def run(ctx, rep):
         v = strip(val)
         code = dict(v[3]).get('0') if v[0] == 'agg' and v[2] == 'Ok' else None
         seen.add(arm)
-        site = o.sites[-1]
+        site = o.sites[0]
+        body = (o.body_fn.path,) if getattr(o, 'body_fn', None) is not None else ()
+        if body:
+            rep.analysed(o.body_fn)
         where = '%s:%d' % (rd.file, rd.line)
         if arm == 'Fail':
             rep.check(code == ('const', 100), 'R4', 'detect/Fail/code', where, 'Fail => Ok(100)', 'detect Fail returns %s' % vstr(v)[:60])
@@ -629,13 +709,13 @@ def run(ctx, rep):
             if ok:
                 e = wr[0]
                 pv = strip(e.path)
-                ok_path = pv[0] == 'field' and pv[2] == 'build_plan_path' and pv[1][0] == 'param' and pv[1][2] == 1
+                ok_path = pv[0] == 'field' and pv[2] == 'build_plan_path' and pv[1][0] == 'param' and pv[1][2] == 1 and pv[1][1] == rd.path
                 data_ok = any(x[0] == 'field' and x[2] == 'build_plan' for x in walk(view(e.args[1])))
                 # "iff Some": a Some-decision on the plan around the write — in the phase or in the private helper the write
                 # was moved to — or the write sits in the closure an Option combinator on the plan runs with the payload
                 # (`build_plan.map(|p| write(p, ..)).transpose()?`); with a plan, success is only reached through the write
                 is_plan = lambda x: strip(view(x))[0] == 'field' and strip(view(x))[2] == 'build_plan'
-                guarded, always, first, top = provided_write(E, prog, sl, rd, site.bb, e, is_plan)
+                guarded, always, first, top = provided_write(E, prog, sl, rd, site.bb, e, is_plan, o.sites)
                 rep.check(ok_path and guarded and data_ok, 'R4', 'detect/Pass/plan-write', e.where(), 'build plan written to args.build_plan_path iff Some',
                           'plan write: path_ok=%s guarded_by_Some=%s data_ok=%s' % (ok_path, guarded, data_ok))
                 if guarded:
@@ -643,7 +723,7 @@ def run(ctx, rep):
                               'with a plan, Ok(0) is only reached through the write', 'Ok(0) can be returned with a plan without writing it')
                 fa = verdict(result_fates(prog, top.fn, top))
                 rep.check(fa == 'ok', 'R4', 'detect/Pass/plan-write-propagated', e.where(), 'write error propagated', 'write result: ' + fa)
-                why = H.chain_always(E, prog, e, first) + ([] if e.call.name in H.TRUNCATING else ['%s does not replace an existing file' % e.call.name])
+                why = H.chain_always(E, prog, e, first, body) + ([] if e.call.name in H.TRUNCATING else ['%s does not replace an existing file' % e.call.name])
                 rep.check(not why, 'R4', 'detect/Pass/plan-write-helper', e.where(), 'the helper writes (replacing the file) whenever it succeeds',
                           'the write of the build plan inside its helper: %s' % '; '.join(why))
             else:
@@ -660,11 +740,15 @@ def run(ctx, rep):
     # ---- R4 build table ----------------------------------------------------------------------------------
     # write_all is part of the vocabulary here: `File::create(p).and_then(|mut f| f.write_all(d))` is `fs::write(p, d)`
     E2 = Effects(prog, sl, vocab=H.WRITE_DATA)
-    outs = outcomes(E2, rb)
+    outs = H.outcomes_body(E2, rb)
     rep.check(len(outs) >= 1 and all(strip(o.value) == ('agg', 'std::result::Result', 'Ok', (('0', ('const', 0)),)) for o in outs), 'R4', 'build/code', w(rb),
               'build success => Ok(0)', 'build success values: %s' % [vstr(o.value)[:40] for o in outs])
     for o in outs[:1]:
         site = o.sites[-1]
+        bfn, bmap = getattr(o, 'body_fn', None), getattr(o, 'body_map', None)
+        body = (bfn.path,) if bfn is not None else ()
+        if bfn is not None:
+            rep.analysed(bfn)
         ld = lambda v: strip(v)[0] == 'field' and strip(v)[2] == 'layers_dir_path'
         def res_field(v, name, exact=False):
             """v is (exact) / contains the projection .name of Buildpack::build's result, reached through
@@ -679,7 +763,7 @@ def run(ctx, rep):
                         return True
             return False
         known_writes = []
-        pp = H.path_pushes(prog, sl, [rb])       # `p = dir.to_path_buf(); p.push(name)` is `dir.join(name)`
+        pp = H.path_pushes(prog, sl, [rb] + ([bfn] if bfn is not None else []))       # `p = dir.to_path_buf(); p.push(name)` is `dir.join(name)`
         for fname, fld in (('launch.toml', 'launch'), ('store.toml', 'store')):
             es = [e for e in o.may if e.kind == 'WRITE' and L.comps(pp.join_form(e.path) if e.path is not None else None, ld) == (fname,)]
             if len(es) != 1:
@@ -691,18 +775,27 @@ def run(ctx, rep):
             # private helper the write was moved to — or the write sits in a closure that an Option combinator on
             # result.<fld> runs with the payload (`launch.map_or(Ok(()), |l| write(l, ..))`);
             # "if Some": on the Some side every way to success passes the write (or the combinator always runs the closure)
-            guarded, always, first, top = provided_write(E, prog, sl, rb, site.bb, e, lambda x, fld=fld: res_field(x, fld, exact=True))
+            guarded, always, first, top = provided_write(E, prog, sl, rb, o.sites[0].bb, e, lambda x, fld=fld: res_field(x, fld, exact=True), o.sites)
             ok = guarded and data_ok and always and verdict(result_fates(prog, top.fn, top)) == 'ok'
             rep.check(ok, 'R4', 'build/' + fname, e.where(), '%s written iff result.%s is Some, error propagated' % (fname, fld),
                       '%s: guarded_by_Some(%s)=%s data_from_result=%s always_on_Some=%s' % (fname, fld, guarded, data_ok, always))
             # the same inside the helper(s) the write goes through: unconditional, checked, and replacing a file that exists
-            why = H.chain_always(E, prog, e, first) + ([] if e.call.name in H.TRUNCATING else ['%s does not replace an existing file' % e.call.name])
+            why = H.chain_always(E, prog, e, first, body) + ([] if e.call.name in H.TRUNCATING else ['%s does not replace an existing file' % e.call.name])
             rep.check(not why, 'R4', 'build/%s/helper' % fname, e.where(), 'the helper writes (replacing the file) whenever it succeeds',
                       'the write of %s inside its helper: %s' % (fname, '; '.join(why)))
             known_writes.append(e)
         # every SBOM of result.<fld> is written: FORALL write effects on every path to success — of a loop, an iterator
         # consumer, or a loop nest whose outer loop ranges over a literal table of (collection, name, ..) rows (unrolled)
-        must_all = list(o.must) + H.nested_must(E2, rb, [site.bb])
+        if bfn is not None and site.fn.path == bfn.path:
+            # (loop nests of the body function, in the phase's terms)
+            nest = H.nested_must(E2, bfn, [site.bb], level=1)
+            for e in nest:
+                e.path = E2.subst(e.path, bmap) if e.path is not None else None
+                e.args = tuple(E2.subst(a, bmap) for a in e.args) if e.args is not None else None
+                e.forall = E2.subst(e.forall, bmap) if e.forall is not None else None
+        else:
+            nest = H.nested_must(E2, rb, [site.bb])
+        must_all = list(o.must) + nest
         sb = [e for e in must_all if e.kind == 'WRITE' and e.forall is not None and strip(e.path)[0] == 'call' and strip(e.path)[1] == SBOM_PATH]
         got = {}
         for e in sb:
